@@ -7,19 +7,10 @@ import Mathlib.Tactic.FieldSimp
 import Mathlib.Tactic.Linarith
 import Mathlib.Tactic.LinearCombination
 import Mathlib.Algebra.Field.Basic
-import JaxleyVerif.Model.SolveJaxley
+import JaxleyVerif.Model.SolveJaxleySpec
 
 namespace JaxleyVerif.Model.SolveJaxley
 variable {K : Type} [Field K]
-
-/-- Schur pivots and right-hand sides of the rows of a slot, counted from its (padded) end `e`:
-`pe k` belongs to row `e - k`.  This is `HTree.elim` along the path `e, e-1, …`. -/
-def pe (d lo up b : Nat → K) (e : Nat) : Nat → K × K
-  | 0 => (d e, b e)
-  | k + 1 =>
-    let i := e - (k + 1)
-    let r := pe d lo up b e k
-    (d i - up i * lo (i + 1) / r.1, b i - up i * r.2 / r.1)
 
 /-! ### helper lemmas -/
 
